@@ -159,7 +159,23 @@ def main():
     workers = int(sys.argv[3]) if len(sys.argv) > 3 else 4
     seed = int(sys.argv[4]) if len(sys.argv) > 4 else 1
     rng = random.Random(seed)
-    cands = candidates(rng)[:n]
+    if os.environ.get("RECHECK"):
+        # re-run the mutants of an earlier result file that no check killed
+        # (matched by content: line numbers may have moved)
+        cands = []
+        for l in open(os.environ["RECHECK"]):
+            r = json.loads(l)
+            if r.get("suite") != "pass" or r.get("killed_by"):
+                continue
+            lines = open(os.path.join(REPO, r["file"])).read().split("\n")
+            hits = [i for i, t in enumerate(lines) if t.strip() == r["before"]]
+            if not hits:
+                continue
+            i = min(hits, key=lambda i: abs(i - (r["line"] - 1)))
+            indent = lines[i][: len(lines[i]) - len(lines[i].lstrip())]
+            cands.append((r["file"], i, r["op"], lines[i], indent + r["after"]))
+    else:
+        cands = candidates(rng)[:n]
     queue = list(enumerate(cands))
     queue.reverse()
     lock = threading.Lock()
